@@ -911,3 +911,17 @@ register_hook('setitem', _obj_setitem)
 @model('collections.OrderedDict')
 def _ordereddict(I, args, kw):
     return _dict(I, args, kw)
+
+
+@model('builtins.object.__new__')
+def _obj_new(I, args, kw):
+    E = _E()
+    cls = [a for a in args if isinstance(a, E.ClassRef)]
+    if not cls:
+        raise Unsupported('object.__new__ of a non-repo class')
+    return E.Obj(cls[-1])
+
+
+@model('builtins.object.__init__')
+def _obj_init(I, args, kw):
+    return None
